@@ -280,11 +280,38 @@ def check_placement(tier, seed):
                   len(jobs) * len(PLACEMENTS), fails, samples=[dict(model=cm.show(sel[0]))], distinct=len(jobs))
 
 
+def check_blocked_subst():
+    """block="substitution" on the HEAD of a substitution group takes its members out of what a reference to the head matches (the model with the head and a member side by
+    side is then deterministic); the same attribute on a MEMBER says nothing about the group of its head (the model stays ambiguous).  Also blockDefault, and block with other values"""
+    import xmlschema
+    fails = []; n = 0
+    for ver, hb, mb, bd, (shape, body) in itertools.product(('1.0', '1.1'), ('', 'substitution', 'extension', '#all', 'restriction substitution'), ('', 'substitution', '#all'), ('', 'substitution'), (
+            ('choice(H|M)', '<xs:choice><xs:element ref="H"/><xs:element ref="M"/></xs:choice>'), ('choice(M|H)', '<xs:choice><xs:element ref="M"/><xs:element ref="H"/></xs:choice>'),
+            ('seq(H?,M)', '<xs:sequence><xs:element ref="H" minOccurs="0"/><xs:element ref="M"/></xs:sequence>'), ('seq(H*,M2)', '<xs:sequence><xs:element ref="H" minOccurs="0" maxOccurs="unbounded"/><xs:element ref="M2"/></xs:sequence>'),
+            ('seq(H,M)', '<xs:sequence><xs:element ref="H"/><xs:element ref="M"/></xs:sequence>'))):
+        n += 1
+        att = lambda v: f' block="{v}"' if v else ''
+        xsd = (f'<xs:schema {cm.XS}' + (f' blockDefault="{bd}"' if bd else '') + f'><xs:element name="H" type="xs:decimal"{att(hb)}/><xs:element name="M" type="xs:decimal" substitutionGroup="H"{att(mb)}/>'
+               f'<xs:element name="M2" type="xs:decimal" substitutionGroup="M"/><xs:element name="r"><xs:complexType>{body}</xs:complexType></xs:element></xs:schema>')
+        head_blocks = 'substitution' in hb or hb == '#all' or (not hb and bd == 'substitution')
+        # M2 substitutes M, M substitutes H: a reference to H claims M and M2 unless H blocks substitution (the block of M only stops M2 from standing for M - and through M for H)
+        m_blocks = 'substitution' in mb or mb == '#all' or (not mb and bd == 'substitution')
+        claims = set() if head_blocks else ({'M'} | (set() if m_blocks else {'M2'}))
+        other = 'M2' if 'M2' in shape else 'M'
+        ambiguous = shape != 'seq(H,M)' and other in claims
+        try: _cls(ver)(xsd); got = 'accepted'
+        except xmlschema.XMLSchemaModelError: got = 'model error'
+        except xmlschema.XMLSchemaException as e: got = 'error:' + type(e).__name__ + ': ' + str(e)[:80]
+        exp = 'model error' if ambiguous else 'accepted'
+        if got != exp: fails.append(dict(case=dict(blocked_subst=[ver, hb, mb, bd, shape]), observed=got, required=exp))
+    return result('C15.blocked_substitution_heads', '5 block values on the head x 3 on the member x blockDefault x 5 models with a reference to the head beside a reference to a (transitive) member x 2 classes', n, fails, exhaustive=True)
+
+
 def run(tier, seed, open_findings):
     known = load_instances('C15_instances.json')
     return [check(list(cm.two_level_models()), tier, seed, known, 'C15.two_level_models', 4, open_findings),
             check(list(cm.two_level_models_rev()), tier, seed, known, 'C15.two_level_models_rev', 4, open_findings),
-            check(list(cm.variant_models()), tier, seed, known, 'C15.variant_models', 1, open_findings), check_edc(tier, seed), check_subst(tier, seed), check_placement(tier, seed), check_wild_edc(), check_subst_edc(), check_priority()]
+            check(list(cm.variant_models()), tier, seed, known, 'C15.variant_models', 1, open_findings), check_edc(tier, seed), check_subst(tier, seed), check_placement(tier, seed), check_wild_edc(), check_subst_edc(), check_priority(), check_blocked_subst()]
 
 
 def replay(check_name, case):
@@ -292,6 +319,8 @@ def replay(check_name, case):
         a = case['wild_edc']; r = eval_wild_edc((tuple(a[0]), a[1], a[2], a[3], a[4])); return dict(ok=r is None, observed=r and r['got'], required=r and r['expected'])
     if case.get('priority'):
         a = case['priority']; r = eval_priority((a[0], a[1], tuple(a[2]))); return dict(ok=r is None, observed=r and r['bad'][:2], required='the child is governed by its element declaration')
+    if case.get('blocked_subst'):
+        r = check_blocked_subst(); mine = [f for f in r['failures'] if list(f['case']['blocked_subst']) == list(case['blocked_subst'])]; return dict(ok=not mine, observed=mine[:1], required='model error <=> the head claims the member')
     if case.get('subst_edc'):
         r = eval_subst_edc(tuple(case['subst_edc'])); return dict(ok=r is None, observed=r and r['got'], required=r and r['expected'])
     if case.get('placement'):
